@@ -159,7 +159,7 @@ func (e *Enc) envForCall(callee *ssa.Function, args []Val, results []*Term, st *
 	}
 	for i, p := range callee.Params {
 		if i < len(args) {
-			env.vars[p.Name()] = SV{t: args[i].t(), typ: p.Type(), addr: args[i].Addr}
+			env.vars[p.Name()] = SV{t: args[i].t(), typ: p.Type(), addr: args[i].Addr, pointee: args[i].Addr != nil}
 		}
 	}
 	if ta := callee.TypeArgs(); len(ta) > 0 {
@@ -187,19 +187,29 @@ func (e *Enc) envForCall(callee *ssa.Function, args []Val, results []*Term, st *
 	if e.envAlias != nil && callee == e.top {
 		e.envAlias(env, args)
 	}
-	if callee == e.top && len(e.freeVarVals) == len(callee.FreeVars) {
+	if callee == e.top && len(callee.FreeVars) > 0 && len(e.freeVarVals) == len(callee.FreeVars) {
 		// captured variables are visible to the contract of a function literal under their source names
-		for i, fv := range callee.FreeVars {
-			if _, clash := env.vars[fv.Name()]; clash {
-				continue
+		bind := func(into map[string]SV, s *State) {
+			for i, fv := range callee.FreeVars {
+				if _, clash := env.vars[fv.Name()]; clash && into[fv.Name()].addr == nil {
+					continue
+				}
+				v := e.freeVarVals[i]
+				if pt, ok := fv.Type().Underlying().(*types.Pointer); ok {
+					ad := e.addrOf(v, pt.Elem())
+					into[fv.Name()] = SV{t: e.load(s, ad), typ: pt.Elem(), addr: ad}
+				} else {
+					into[fv.Name()] = SV{t: v.t(), typ: fv.Type()}
+				}
 			}
-			v := e.freeVarVals[i]
-			if pt, ok := fv.Type().Underlying().(*types.Pointer); ok {
-				ad := e.addrOf(v, pt.Elem())
-				env.vars[fv.Name()] = SV{t: e.load(st, ad), typ: pt.Elem(), addr: ad}
-			} else {
-				env.vars[fv.Name()] = SV{t: v.t(), typ: fv.Type()}
+		}
+		bind(env.vars, st)
+		if old != nil && old != st {
+			env.oldVars = map[string]SV{}
+			for k, v := range env.vars {
+				env.oldVars[k] = v
 			}
+			bind(env.oldVars, old)
 		}
 	}
 	if results != nil {
@@ -495,7 +505,7 @@ func (e *Enc) typeContractEnv(tc *FuncContract, sig *types.Signature, f Val, fty
 		if n == "" {
 			n = fmt.Sprintf("arg%d", i)
 		}
-		env.vars[n] = SV{t: args[i].t(), typ: sig.Params().At(i).Type(), addr: args[i].Addr}
+		env.vars[n] = SV{t: args[i].t(), typ: sig.Params().At(i).Type(), addr: args[i].Addr, pointee: args[i].Addr != nil}
 	}
 	if results != nil {
 		for i := 0; i < sig.Results().Len(); i++ {
@@ -1066,7 +1076,7 @@ func (e *Enc) envAt(fr *Frame, st *State, head *ssa.BasicBlock) *evalEnv {
 	env.pkg = e.L.typesPkg(funcPkgPath(fr.fn))
 	for _, p := range fr.fn.Params {
 		if v, ok := fr.vals[p]; ok {
-			env.vars[p.Name()] = SV{t: v.t(), typ: p.Type(), addr: v.Addr}
+			env.vars[p.Name()] = SV{t: v.t(), typ: p.Type(), addr: v.Addr, pointee: v.Addr != nil}
 		}
 	}
 	for _, p := range fr.fn.FreeVars {
@@ -1104,43 +1114,74 @@ func (e *Enc) envAt(fr *Frame, st *State, head *ssa.BasicBlock) *evalEnv {
 			}
 		}
 	}
+	at := head
+	if at == nil {
+		at = fr.cur
+	}
+	type cand struct {
+		b  *ssa.BasicBlock
+		sv SV
+	}
+	best := map[string]cand{}
 	for _, b := range fr.fn.Blocks {
-		if head != nil && !(b.Dominates(head)) {
+		if at != nil && !b.Dominates(at) {
+			continue
+		}
+		if head != nil && b == head {
 			continue
 		}
 		for _, in := range b.Instrs {
-			switch x := in.(type) {
-			case *ssa.DebugRef:
-				id, ok := x.Expr.(*ast.Ident)
-				if !ok || x.IsAddr {
-					if ok && x.IsAddr {
-						// address-taken local: current content of its cell
-						if v, okv := fr.vals[x.X]; okv {
-							if pt, okp := x.X.Type().Underlying().(*types.Pointer); okp {
-								if _, exists := env.vars[id.Name]; !exists {
-									ad := e.addrOf(v, pt.Elem())
-									env.vars[id.Name] = SV{t: e.load(st, ad), typ: pt.Elem(), addr: ad}
-								}
-							}
-						}
+			if phi, isPhi := in.(*ssa.Phi); isPhi && phi.Comment != "" {
+				if v, okv := fr.vals[phi]; okv {
+					if prev, exists := best[phi.Comment]; !exists || prev.b == b || prev.b.Dominates(b) {
+						best[phi.Comment] = cand{b: b, sv: SV{t: v.t(), typ: phi.Type()}}
 					}
+				}
+				continue
+			}
+			x, ok := in.(*ssa.DebugRef)
+			if !ok {
+				continue
+			}
+			id, ok := x.Expr.(*ast.Ident)
+			if !ok {
+				continue
+			}
+			if obj, isVar := x.Object().(*types.Var); !isVar || obj.IsField() {
+				continue // only source variables, not field names or other identifiers
+			}
+			v, okv := fr.vals[x.X]
+			if !okv {
+				continue
+			}
+			var sv SV
+			if x.IsAddr {
+				pt, okp := x.X.Type().Underlying().(*types.Pointer)
+				if !okp {
 					continue
 				}
-				if _, isPhiHere := x.X.(*ssa.Phi); isPhiHere && head != nil && x.X.(*ssa.Phi).Block() == head {
-					continue
-				}
-				if v, okv := fr.vals[x.X]; okv {
-					if b == head {
-						continue
-					}
-					if _, exists := env.vars[id.Name]; !exists || true {
-						if _, fromPhi := e.headPhi(head, id.Name); !fromPhi {
-							env.vars[id.Name] = SV{t: v.t(), typ: x.X.Type(), addr: v.Addr}
-						}
-					}
-				}
+				ad := e.addrOf(v, pt.Elem())
+				sv = SV{t: e.load(st, ad), typ: pt.Elem(), addr: ad}
+			} else {
+				sv = SV{t: v.t(), typ: x.X.Type(), addr: v.Addr, pointee: v.Addr != nil}
+			}
+			if prev, exists := best[id.Name]; exists && prev.b != b && !prev.b.Dominates(b) {
+				continue // an earlier candidate is deeper in the dominator tree
+			}
+			best[id.Name] = cand{b: b, sv: sv}
+		}
+	}
+	for name, c := range best {
+		if _, fromPhi := e.headPhi(head, name); fromPhi {
+			continue
+		}
+		if _, isParam := env.vars[name]; isParam {
+			// parameters keep their entry binding unless the source reassigns them (then a DebugRef names the new value)
+			if c.sv.t == env.vars[name].t {
+				continue
 			}
 		}
+		env.vars[name] = c.sv
 	}
 	return env
 }
